@@ -74,6 +74,7 @@ JudgeP(e) ==
      ELSE IF \E h \in DOMAIN prevObs : h # e.h /\ now[h] # prevObs[h] THEN "P:other-models-unchanged"
      ELSE IF e.a = "become" /\ ~BecomeOK(b, a, e.x, e.y) THEN "P:become-contract"
      ELSE IF e.a = "remove" /\ ~RemoveOK(b, a, e.x) THEN "P:remove-contract"
+     ELSE IF e.a = "addedge" /\ ~(a.edges = b.edges \cup {<<e.y, e.x, e.v>>} /\ a.nodes = b.nodes) THEN "P:added-edge-fills-the-given-slot"
      ELSE IF e.a \in {"copy", "saveload"} /\ now[e.h2] # now[e.h] THEN "P:copy-has-same-structure"
      ELSE IF e.a = "copy" /\ e.obs[e.h2].dg # e.obs[e.h].dg THEN "P:copy-generates-same-seeded-outputs"
      ELSE IF e.a = "saveload" /\ e.obs[e.h2].dg # e.obs[e.h].dg THEN "P:saved-and-loaded-generates-same-seeded-outputs"
